@@ -40,7 +40,7 @@ func ruleC02Select(p *Prog, r *Result) {
 			return false
 		}
 		info := pr.carried[t.N]
-		if info.Init == nil || info.Init.Op != "lit" || len(info.Init.Args) != 0 {
+		if info.Init == nil || !(info.Init.IsEmptyList() || info.Init.IsNil()) {
 			return false
 		}
 		n := 0
@@ -178,13 +178,33 @@ func ruleC02Select(p *Prog, r *Result) {
 			return true, ""
 		})
 	pr.all("a document without parents (and without $match) is appended", selectPaths(plain, func(pa *Path) bool { return pa.End == "return" && lastResult(pa).IsNil() }), "appended iff nothing was merged", func(pa *Path) (bool, string) {
+		// was anything merged on this path? Known from a flag raised in the merge loop, or from a test of the
+		// parent list for emptiness
 		matched := 0
 		for _, g := range pa.Guards {
 			if g.Kind == "truth" && g.A.Op == "carried" {
+				info := pr.carried[g.A.N]
+				raised := info.Init != nil && info.Init.IsConst("false") && len(info.Src) > 0
+				for _, sv := range info.Src {
+					if !sv.IsConst("true") {
+						raised = false
+					}
+				}
+				if !raised {
+					continue
+				}
 				matched = 1
 				if g.Neg {
 					matched = -1
 				}
+			}
+		}
+		if matched == 0 {
+			switch guardPol(pa, "len", isParentsList, "==0") {
+			case 1:
+				matched = -1
+			case -1:
+				matched = 1
 			}
 		}
 		ap := appendsDoc(pa)
